@@ -247,7 +247,7 @@ def check_case(ctx, case):
 
 
 def run(ctx):
-    for k in range(ctx.n(70, 600)):
+    for k in range(ctx.n(110, 1200)):
         check_case(ctx, gen(ctx))
     ctx.lean.flush()
 
